@@ -114,7 +114,7 @@ DEFAULT_DEFS: List[Def] = [
 
     # Character entity.
     Def(
-        match=re.compile(r'\\?(&[\w#][\w]+;)'),
+        match=re.compile(r'\\?(&(?:[a-zA-Z][a-zA-Z0-9]*|#[0-9]+|#[xX][0-9a-fA-F]+);)'),
         replacement='',
         filter=lambda match, d: match[1]  # Pass the entity through verbatim.
     ),
